@@ -210,6 +210,35 @@ func c06PickPos(r *vRand, n int) (int, string) {
 	return 1 + r.intn(n-2), "middle"
 }
 
+// the IPv6 prefixes (wire form) of an untouched MP_REACH_NLRI / MP_UNREACH_NLRI built by c06Base
+func c06MpPrefixes(a *c06Attr) [][]byte {
+	v := a.val
+	switch a.typ {
+	case 14:
+		if len(v) < 21 {
+			return nil
+		}
+		v = v[21:]
+	case 15:
+		if len(v) < 3 {
+			return nil
+		}
+		v = v[3:]
+	default:
+		return nil
+	}
+	var out [][]byte
+	for len(v) > 0 {
+		n := 1 + (int(v[0])+7)/8
+		if n > len(v) {
+			return out
+		}
+		out = append(out, v[:n])
+		v = v[n:]
+	}
+	return out
+}
+
 var c06UnknownTypes = []int{11, 12, 13, 19, 20, 21, 24, 27, 28, 30, 31, 33, 39, 41, 99, 128, 200, 254, 255}
 
 // c06Base builds a well-formed UPDATE for the peer type.
@@ -286,20 +315,23 @@ func c06Base(r *vRand, peer int) *c06Msg {
 			add(f, byte(c06UnknownTypes[r.intn(len(c06UnknownTypes))]), c06RandBytes(r, r.intn(7)))
 		}
 	}
-	if mp {
-		if r.chance(70) && len(m.attrs) > 0 {
-			v := []byte{0, 2, 1, 16, 0x20, 0x01, 0x0d, 0xb8, 0, 0, 0, 0, 0, 0, 0, 0, 0, 0, 0, byte(1 + r.intn(9)), 0}
-			for i, n := 0, 1+r.intn(2); i < n; i++ {
-				v = append(v, c06Prefix6(r)...)
-			}
-			add(0x80, 14, v)
-		} else {
-			v := []byte{0, 2, 1}
-			for i, n := 0, 1+r.intn(2); i < n; i++ {
-				v = append(v, c06Prefix6(r)...)
-			}
-			add(0x80, 15, v)
+	// MP_REACH and MP_UNREACH (IPv6 unicast): either or both, so that one UPDATE may announce and
+	// explicitly withdraw in both the IPv4 fields and the multiprotocol attributes
+	reach := mp && len(m.attrs) > 0 && r.chance(70)
+	unreach := (mp && (!reach || r.chance(45))) || (!mp && r.chance(8))
+	if reach {
+		v := []byte{0, 2, 1, 16, 0x20, 0x01, 0x0d, 0xb8, 0, 0, 0, 0, 0, 0, 0, 0, 0, 0, 0, byte(1 + r.intn(9)), 0}
+		for i, n := 0, 1+r.intn(2); i < n; i++ {
+			v = append(v, c06Prefix6(r)...)
 		}
+		add(0x80, 14, v)
+	}
+	if unreach {
+		v := []byte{0, 2, 1}
+		for i, n := 0, 1+r.intn(2); i < n; i++ {
+			v = append(v, c06Prefix6(r)...)
+		}
+		add(0x80, 15, v)
 	}
 	// benign variations of the encoding
 	for i := range m.attrs {
